@@ -390,6 +390,28 @@ pub fn run(ctx: &Ctx) -> i32 {
         total.extra.insert("edited_programs_treated".into(), json!(r.counters.get("edited_programs_treated").copied().unwrap_or(0)));
         total.merge(r);
     }
+    // programs whose failing part is not an `error` expression: the rewrites must keep the failure
+    {
+        const FAILING_LEAVES: &[&str] = &[
+            "-(1e400) < 0", "std.type(1e400)", "[1e400][0] < 0", "(1 / 0) < 0", "[][0] == 0", "{}.a == 0", "(\"a\" < 1) == true", "std.extVar(\"nope\") == 0",
+            "std.length(1e400 + 0) == 0", "(1e308 * 10) < 0", "std.toString(1e400)", "\"\" + 1e400", "\"%s\" % 1e400", "{a: 1e400}.a < 0 || true", "local f(x) = x; f(1e400) < 0",
+            "[x for x in [1e400]][0] < 0", "std.isNumber(1e400)", "(function(x=1e400) x)() < 0", "{local l = 1e400, a: l}.a < 0", "1e400 == 1e400",
+        ];
+        let arena = Arena::new();
+        let mut p = Program::new(&arena);
+        for src in FAILING_LEAVES {
+            match crate::c15::impl_parse(src.as_bytes()) {
+                crate::c15::Parsed::Tree(e, _) => {
+                    let e = crate::c15::plain_numbers(&syntax::strip_parens(&e));
+                    if let Err(m) = util::catch(|| check_program(&mut p, &e, &mut total, false)).and_then(|r| r) {
+                        total.violation(format!("C04/panic/{}", util::panic_site(&m)), format!("panic on a variant of `{src}`: {m}"), json!({"type":"eval","source":src}));
+                    }
+                }
+                _ => eprintln!("ENGINE-ERROR: C04 failing-leaf program does not parse: {src}"),
+            }
+        }
+        total.extra.insert("failing_leaf_programs".into(), json!(FAILING_LEAVES.len()));
+    }
     // seeds
     for (tmpl, want) in SEEDS {
         let ok_src = tmpl.replace("@@", "0");
